@@ -110,6 +110,8 @@ type evalCtx struct {
 	lets  map[string]Expr
 	cells map[string]*Loc // names bound to memory cells (captured variables of closures): read in the current state
 	opaque map[string]*Loc // parameters that are addresses of a struct-valued field (opaque pointers): name -> location
+	headSt  *State          // iterpost only: state and names at the loop head of this iteration (athead(e))
+	headEnv map[string]Term
 	ft    *funcTrans
 }
 
@@ -787,6 +789,16 @@ func (c *evalCtx) field(base Term, name string) Term {
 		}
 	}
 	obj, path, _ := types.LookupFieldOrMethod(gt, true, c.pkg, name)
+	if obj == nil {
+		// specifications may name unexported fields of another package's types
+		t0 := gt
+		if p, ok := t0.Underlying().(*types.Pointer); ok {
+			t0 = p.Elem()
+		}
+		if nt, ok := t0.(*types.Named); ok && nt.Obj().Pkg() != nil {
+			obj, path, _ = types.LookupFieldOrMethod(gt, true, nt.Obj().Pkg(), name)
+		}
+	}
 	fv, ok := obj.(*types.Var)
 	if !ok || !fv.IsField() {
 		c.fail("no field %s in %v", name, gt)
@@ -967,6 +979,14 @@ func (c *evalCtx) call(x *ECall) Term {
 			r = "(s-arr " + a.S + ")"
 		}
 		return Term{fmt.Sprintf("(and (> %s %s) (<= %s %s))", r, c.old.alloc, r, c.st.alloc), sortBool}
+	case "athead":
+		// athead(e): e as it was when this iteration started (iterpost clauses only)
+		if c.headSt == nil || len(x.Args) != 1 {
+			c.fail("athead(e) is available in iterpost clauses only")
+		}
+		n := *c
+		n.st, n.env = c.headSt, c.headEnv
+		return n.eval(x.Args[0])
 	case "allocated":
 		a := c.eval(x.Args[0])
 		r := a.S
